@@ -53,7 +53,8 @@ def run(tier, t0):
         uniq = sorted(set(ms))
         per = (60 if thorough else 25) * n if algo != "random" else 200 * n // tasks + 1
         if algo == "rr":
-            per = 40 * n if mode == "seq" else (400 if thorough else 150) * n
+            # concurrent run: about 2400 (quick) / 9600 (thorough) selections in all, a multiple of n per task; the heavy contention is the hammer's job
+            per = 40 * n if mode == "seq" else (((9600 if thorough else 2400) // ntasks) // n + 1) * n
         algo_yaml = {"rr": "rr", "random": "random"}.get(algo) or '{hashBy: "%s"}' % arg.replace('"', '\\"')
         yaml = "name: lb\ntype: loadbalance\nconnectors: [%s]\nalgo: %s\n" % (", ".join(ms), algo_yaml)
         reqs = reqs_pool(rnd, 40)
